@@ -1,5 +1,5 @@
 #!/usr/bin/env python3
-"""Apply each given diff (or each R*.diff of a directory) to /repo, run every claimed quick check in parallel, revert;
+"""Apply each given diff (or each R*.diff of a directory) to a scratch worktree of /repo, run every claimed quick check on it in parallel;
 print the checks that do not exit 0.  Usage: try_refactor.py <dir-or-diff>... [--only C07,C12]"""
 import glob, json, os, subprocess, sys
 from concurrent.futures import ThreadPoolExecutor
@@ -17,31 +17,41 @@ for a in args:
     diffs += sorted(glob.glob(os.path.join(a, "*R*.diff"))) if os.path.isdir(a) else [a]
 manifest = json.load(open(os.path.join(VERIF, "MANIFEST.json")))
 pids = [c["property_id"] for c in manifest["checks"] if only is None or c["property_id"] in only]
-rc, o = sh("git status --porcelain", "/repo")
-assert not o.strip(), "repo dirty"
+# each diff is applied to its own scratch worktree of /repo (outside /repo and /verif, removed afterwards); /repo is not touched
+import shutil, tempfile
 total_bad = 0
-for diff in diffs:
-    diff = os.path.abspath(diff)
-    rc, o = sh(f"git apply --check {diff} && git apply {diff}", "/repo")
-    if rc != 0:
-        print(f"{os.path.basename(diff)}: does not apply to /repo HEAD: {o.strip()[:200]}")
-        sh("git checkout -- .", "/repo")
-        continue
-    bad = []
-    try:
-        def run(pid):
-            return pid, sh(f"./check {pid} --tier quick --no-evidence", VERIF)
-        with ThreadPoolExecutor(16) as ex:
-            for pid, (rcc, oc) in ex.map(run, pids):
-                if rcc != 0:
-                    lines = [l for l in oc.splitlines() if "VIOLATED" in l or l.startswith("ANALYSIS-ERROR") or "UNDECIDED" in l or "Error" in l]
-                    bad.append((pid, rcc, lines[:4]))
-    finally:
-        sh("git checkout -- .", "/repo")
-    total_bad += len(bad)
-    print(f"{os.path.basename(diff)}: " + ("all checks silent" if not bad else f"{len(bad)} check(s) NOT silent"))
-    for pid, rcc, lines in bad:
-        print(f"   {pid} exit {rcc}")
-        for l in lines:
-            print("      " + l[:260])
+base = tempfile.mkdtemp(prefix="jfsa_refac_")
+try:
+    for n, diff in enumerate(diffs):
+        diff = os.path.abspath(diff)
+        wt = os.path.join(base, f"w{n}")
+        rc, o = sh(f"git -C /repo worktree add --detach -f {wt} HEAD -q")
+        if rc != 0:
+            print(f"cannot create scratch worktree: {o[:200]}")
+            break
+        try:
+            rc, o = sh(f"git apply --check {diff} && git apply {diff}", wt)
+            if rc != 0:
+                print(f"{os.path.basename(diff)}: does not apply to /repo HEAD: {o.strip()[:200]}")
+                continue
+            bad = []
+
+            def run(pid):
+                return pid, sh(f"./check {pid} --tier quick --no-evidence --repo {wt}", VERIF)
+            with ThreadPoolExecutor(16) as ex:
+                for pid, (rcc, oc) in ex.map(run, pids):
+                    if rcc != 0:
+                        lines = [l for l in oc.splitlines() if "VIOLATED" in l or l.startswith("ANALYSIS-ERROR") or "UNDECIDED" in l or "Error" in l]
+                        bad.append((pid, rcc, lines[:4]))
+            total_bad += len(bad)
+            print(f"{os.path.basename(os.path.dirname(diff))}/{os.path.basename(diff)}: " + ("all checks silent" if not bad else f"{len(bad)} check(s) NOT silent"))
+            for pid, rcc, lines in bad:
+                print(f"   {pid} exit {rcc}")
+                for l in lines:
+                    print("      " + l[:260])
+        finally:
+            sh(f"git -C /repo worktree remove --force {wt}")
+finally:
+    shutil.rmtree(base, ignore_errors=True)
+    sh("git -C /repo worktree prune")
 print(f"TOTAL not-silent: {total_bad}")
